@@ -118,10 +118,14 @@ PROVED = {
          "the termination proof: bytes must be < 256 (true of u8), and the run bound 4*|input|+64 of the model is exceeded by specifications deeper than "
          "~67 levels on 2-byte inputs (Example C05_deep_spec_exceeds_call_bound) — a limit of the model's driver, not of the code. Panics outside the "
          "modelled sites are covered by the adversarial correspondence runs under catch_unwind with hang detection.", ""),
- "C08": ("PARTIAL. Theorems on the algebraic core: rolling up a well-nested item sequence into a Full and unrolling it gives Start, the flattened "
-         "children, End (C08_unroll_rollup_partial); with nothing inside buffered itself the original flat sequence is recovered exactly; a balanced body "
-         "is skipped whatever ids it contains (same-id nesting). That buffer_master feeds roll_up exactly the items of the flat parse (the simulation "
-         "between buffered and unbuffered runs) is covered by correspondence groups with and without buffered sets; EOF inside a buffered master with "
+ "C08": ("Theorems (Proofs/BufferSim.v, RollUp.v): C08_buffered_run_unrolls — for every configuration (any buffered set, buffered masters nested in "
+         "each other, any tolerances) and input, if the buffered run completes without an error outcome then unrolling every Full item (recursively) gives "
+         "exactly the tag sequence of the run with nothing buffered (side condition: the unbuffered run is not cut by the model driver's call bound, or "
+         "the unrolled length is below it; C08_buffered_run_unrolls_upto_limit holds unconditionally as a prefix statement; C08_limit_ex shows the bound "
+         "matters only for specifications ~90 levels deep); C08_buffered_run_unrolls_items — the same with offsets: a Full item carries its Start's "
+         "offset, its End is reported there too, every other item keeps its offset; the step simulation (one buffered read_next = n+1 unbuffered ones, "
+         "children of a buffered master are balanced, scan finds exactly the End of that frame also with same-id nesting); algebraic core (roll-up / "
+         "unroll). Errors inside a buffered master (partial children dropped) are judged by the correspondence groups; EOF inside a buffered master with "
          "emit_master_end_when_eof(false) is known finding D18.", ""),
  "C12": ("Theorems (Proofs/Partial.v, CutExists.v): C12_every_cut_partial — for every strict configuration, every conforming document and EVERY cut "
          "position k, reading the first k bytes yields out_tdoc (cut_doc f k): the items of everything complete (a master's Start once its header is "
